@@ -565,8 +565,12 @@ def r6(run, ctx):
     run.check('R6', bool(kills) and all(guarded(cfg, k, positive, True) for k in kills),
               'an empty or non-positive pid is never probed', v, v.node,
               'pid 0 / negative pids are probed with kill (process groups!)')
-    run.check('R6', 'int(f.read() or 0)' in src or 'or 0' in src, 'an empty file reads as 0', v,
-              v.node)
+    zero = [n for n in ctx.live_nodes(v) if n.kind == 'stmt' and isinstance(n.ast, ast.Assign)
+            and astq.const_value(n.ast.value, None) == 0 and
+            any(isinstance(c.args[0], ast.Name) and isinstance(n.ast.targets[0], ast.Name) and
+                c.args[0].id == n.ast.targets[0].id
+                for k in kills for c in k.calls() if dotted(c.func) == 'os.kill')]
+    run.check('R6', 'or 0' in src or bool(zero), 'an empty file reads as 0', v, v.node)
     # create
     c = ctx.fn(PF + 'create')
     cfg = ctx.cfg(c)
